@@ -200,9 +200,70 @@ func (p Poly) HasAtom(name string) bool {
 			if f.a == name {
 				return true
 			}
+			if sa, ok := structAtoms[f.a]; ok {
+				if sa.Lin.HasAtom(name) {
+					return true
+				}
+				for _, x := range sa.Shape {
+					if x.HasAtom(name) {
+						return true
+					}
+				}
+			}
 		}
 	}
 	return false
+}
+
+// StructAtom is the k-th component of the row-major unravelling of a linear position in a shape.
+type StructAtom struct {
+	K     int
+	Lin   Poly
+	Shape []Poly
+}
+
+var structAtoms = map[string]*StructAtom{}
+
+func sanitizeAtom(s string) string {
+	s = strings.ReplaceAll(s, "*", "×")
+	s = strings.ReplaceAll(s, "^", "↑")
+	return s
+}
+
+// Ravel is the row-major linear position of idx in shape.
+func Ravel(idx []Poly, shape []Poly) Poly {
+	lin := PInt(0)
+	stride := PInt(1)
+	for k := len(shape) - 1; k >= 0; k-- {
+		lin = lin.Add(idx[k].Mul(stride))
+		stride = stride.Mul(shape[k])
+	}
+	return lin
+}
+
+// Unravel returns component k of the multi-index of linear position lin in shape (as a structured atom
+// unless it simplifies).
+func Unravel(k int, lin Poly, shape []Poly) Poly {
+	if len(shape) == 1 {
+		return lin
+	}
+	if c, ok := shape[k].Const(); ok && c == 1 {
+		return PInt(0)
+	}
+	var sb strings.Builder
+	fmt.Fprintf(&sb, "unr⟨%d|%s|", k, lin.String())
+	for i, x := range shape {
+		if i > 0 {
+			sb.WriteByte(',')
+		}
+		sb.WriteString(x.String())
+	}
+	sb.WriteString("⟩")
+	name := sanitizeAtom(sb.String())
+	if _, ok := structAtoms[name]; !ok {
+		structAtoms[name] = &StructAtom{K: k, Lin: lin, Shape: append([]Poly{}, shape...)}
+	}
+	return Poly{t: map[string]int64{name: 1}}
 }
 
 // Subst replaces atoms by polynomials.
@@ -217,6 +278,12 @@ func (p Poly) Subst(m map[string]Poly) Poly {
 			var base Poly
 			if s, ok := m[f.a]; ok {
 				base = s
+			} else if sa, ok := structAtoms[f.a]; ok {
+				sh := make([]Poly, len(sa.Shape))
+				for i, x := range sa.Shape {
+					sh[i] = x.Subst(m)
+				}
+				base = Unravel(sa.K, sa.Lin.Subst(m), sh)
 			} else {
 				base = PAtom(f.a)
 			}
@@ -287,6 +354,11 @@ func (p Poly) Eval(env map[string]int64) (int64, bool) {
 		for _, f := range parseMono(k) {
 			x, ok := env[f.a]
 			if !ok {
+				if sa, isS := structAtoms[f.a]; isS {
+					x, ok = sa.eval(env)
+				}
+			}
+			if !ok {
 				return 0, false
 			}
 			for i := 0; i < f.e; i++ {
@@ -296,4 +368,24 @@ func (p Poly) Eval(env map[string]int64) (int64, bool) {
 		s += term
 	}
 	return s, true
+}
+
+func (sa *StructAtom) eval(env map[string]int64) (int64, bool) {
+	lin, ok := sa.Lin.Eval(env)
+	if !ok {
+		return 0, false
+	}
+	stride := int64(1)
+	for i := len(sa.Shape) - 1; i > sa.K; i-- {
+		d, ok := sa.Shape[i].Eval(env)
+		if !ok || d <= 0 {
+			return 0, false
+		}
+		stride *= d
+	}
+	d, ok := sa.Shape[sa.K].Eval(env)
+	if !ok || d <= 0 {
+		return 0, false
+	}
+	return (lin / stride) % d, true
 }
